@@ -260,7 +260,8 @@ func stringMenu(loc string) []string {
 				out = append(out, s)
 			}
 		}
-		return out
+		// values that are path syntax when read as segments
+		return append(out, ".", "..", "a..b")
 	case LocQuery:
 		return base
 	case LocHeader:
